@@ -28,7 +28,10 @@ Definition inv (pers : perspective) (p : tparams) : Prop :=
   cid_wf (tp_odcid p) /\ cid_wf (tp_iscid p) /\ opt_wf cid_wf (tp_rscid p) /\
   opt_wf (fun t => length t = 16%nat) (tp_srt p) /\ opt_wf pa_ok (tp_pa p) /\
   tp_override p = None /\
-  (pers = Client -> tp_pa p = None /\ tp_odcid p = [] /\ tp_rscid p = None /\ tp_srt p = None).
+  (pers = Client -> tp_pa p = None /\ tp_odcid p = [] /\ tp_rscid p = None /\ tp_srt p = None) /\
+  (* AdvertisedMaxIdleTimeout: what the peer sent (saturated); MaxIdleTimeout is derived from it *)
+  ((tp_amit p = 0 /\ tp_mit p = 0) \/
+   (0 < tp_amit p <= maxInt64 /\ whole TP_Millisecond (tp_amit p) /\ tp_mit p = Z.max TP_MinRemoteIdleTimeout (tp_amit p))).
 
 Lemma inv_init pers : inv pers tp_init.
 Proof.
@@ -124,8 +127,8 @@ Qed.
 Ltac fin H :=
     inversion H; subst; unfold inv;
     cbn [tp_imsd_bl tp_imsd_br tp_imsd_uni tp_imd tp_mad tp_ade tp_dam tp_mups tp_mus tp_mbs tp_mit tp_pa tp_odcid
-         tp_iscid tp_rscid tp_srt tp_acil tp_mdfs tp_rsa tp_minad tp_override
-         set_imsd_bl set_imsd_br set_imsd_uni set_imd set_mad set_ade set_mups set_mus set_mbs set_mit set_acil set_mdfs set_minad];
+         tp_iscid tp_rscid tp_srt tp_acil tp_mdfs tp_rsa tp_minad tp_override tp_amit
+         set_imsd_bl set_imsd_br set_imsd_uni set_imd set_mad set_ade set_mups set_mus set_mbs set_mit set_acil set_mdfs set_minad set_amit];
     splits; try assumption; try lia.
 
 Lemma read_numeric_inv pers b id plen p p' :
@@ -134,7 +137,7 @@ Proof.
   intros Hb Hi H. unfold read_numeric in H.
   destruct (vparse b) as [e|[[val l] r]] eqn:Ev; [destruct e; discriminate|].
   pose proof (vparse_vwf _ _ _ _ Hb Ev) as Vv.
-  destruct Hi as (I1 & I2 & I3 & I4 & I5 & I6 & I7 & I8 & I9 & I10 & I11 & I12 & I13 & I14 & I15 & I16 & I17 & I18 & I19 & I20).
+  destruct Hi as (I1 & I2 & I3 & I4 & I5 & I6 & I7 & I8 & I9 & I10 & I11 & I12 & I13 & I14 & I15 & I16 & I17 & I18 & I19 & I20 & I21).
   destruct (negb (l =? plen)); [discriminate|].
   destruct (id =? TP_ID_imsd_bl); [fin H|].
   destruct (id =? TP_ID_imsd_br); [fin H|].
@@ -145,7 +148,15 @@ Proof.
   destruct (id =? TP_ID_mus).
   { revert H; destruct (Z.ltb_spec TP_MaxStreamCount val) as [E|E]; intros H; [discriminate|]. fin H; unfold vwf in *; lia. }
   destruct (id =? TP_ID_mit).
-  { revert H; destruct (Z.eqb_spec val 0) as [E|E]; intros H; [fin H; left; reflexivity | fin H; right; apply mit_value_ok; unfold vwf in *; lia]. }
+  { assert (Hpos : val <> 0 -> 0 < sat_duration val TP_Millisecond).
+    { intros E. unfold sat_duration. destruct (Z.ltb_spec (maxInt64 / TP_Millisecond) val); [vm_compute; reflexivity|].
+      unfold TP_Millisecond, vwf in *. lia. }
+    revert H; destruct (Z.eqb_spec val 0) as [E|E]; intros H.
+    - fin H; first [left; split; reflexivity | left; reflexivity].
+    - destruct (sat_duration_range val TP_Millisecond ltac:(reflexivity) ltac:(unfold vwf in *; lia)) as (R & W).
+      specialize (Hpos E).
+      fin H; first [ right; apply mit_value_ok; unfold vwf in *; lia
+                   | right; split; [lia | split; [exact W | reflexivity]] ]. }
   destruct (id =? TP_ID_mups).
   { revert H; destruct (Z.ltb_spec val 1200) as [E|E]; intros H; [discriminate|]. fin H. right. unfold vwf in *; lia. }
   destruct (id =? TP_ID_ade).
@@ -165,7 +176,7 @@ Qed.
 Ltac finu :=
   unfold inv;
   cbn [st_p upd tp_imsd_bl tp_imsd_br tp_imsd_uni tp_imd tp_mad tp_ade tp_dam tp_mups tp_mus tp_mbs tp_mit tp_pa tp_odcid
-       tp_iscid tp_rscid tp_srt tp_acil tp_mdfs tp_rsa tp_minad tp_override
+       tp_iscid tp_rscid tp_srt tp_acil tp_mdfs tp_rsa tp_minad tp_override tp_amit
        set_pa set_dam set_srt set_odcid set_iscid set_rscid set_rsa];
   splits; try assumption; try lia; try (intro; discriminate).
 
@@ -179,7 +190,7 @@ Proof.
   destruct (is_numeric id).
   { destruct (read_numeric b id plen (st_p s)) as [p'|] eqn:E; [|discriminate].
     inversion H; subst s'. cbn [st_p upd]. eapply read_numeric_inv; eassumption. }
-  pose proof Hi as (I1 & I2 & I3 & I4 & I5 & I6 & I7 & I8 & I9 & I10 & I11 & I12 & I13 & I14 & I15 & I16 & I17 & I18 & I19 & I20).
+  pose proof Hi as (I1 & I2 & I3 & I4 & I5 & I6 & I7 & I8 & I9 & I10 & I11 & I12 & I13 & I14 & I15 & I16 & I17 & I18 & I19 & I20 & I21).
   destruct (id =? TP_ID_pa).
   { destruct pers; cbn [is_client] in H; [|discriminate].
     destruct (read_pa b plen) as [pa|] eqn:E; [|discriminate]. inversion H; subst s'.
@@ -229,12 +240,16 @@ Qed.
 
 (** Everything [unmarshal] accepts from a byte string satisfies [tp_wf] ... *)
 Theorem unmarshal_wf pers b p :
-  bytes b -> unmarshal pers false b = Ok p -> tp_wf p /\ (tp_mit p <> maxInt64 -> tp_norm pers p = p).
+  bytes b -> unmarshal pers false b = Ok p ->
+  tp_wf p /\
+  ((tp_amit p = 0 /\ tp_mit p = 0) \/
+   (0 < tp_amit p <= maxInt64 /\ tp_mit p = Z.max TP_MinRemoteIdleTimeout (tp_amit p))) /\
+  (tp_mit p <> maxInt64 -> tp_amit p = 0 \/ TP_MinRemoteIdleTimeout <= tp_amit p -> tp_norm pers p = p).
 Proof.
   intros Hb H. unfold unmarshal in H.
   destruct (tp_loop (length b) pers st_init b) as [s|] eqn:El; [|discriminate].
   apply tp_loop_inv in El; [|exact Hb|apply inv_init].
-  destruct El as (I1 & I2 & I3 & I4 & I5 & I6 & I7 & I8 & (I9a & I9b & I9c) & I10 & I11 & I12 & I13 & I14 & I15 & I16 & I17 & I18 & I19 & I20).
+  destruct El as (I1 & I2 & I3 & I4 & I5 & I6 & I7 & I8 & (I9a & I9b & I9c) & I10 & I11 & I12 & I13 & I14 & I15 & I16 & I17 & I18 & I19 & I20 & I21).
   unfold tp_finish in H. cbn [negb] in H.
   destruct (match tp_minad (st_p s) with Some m => tp_mad (st_p s) <? m | None => false end) eqn:Em; [discriminate|].
   destruct (is_server pers && negb (st_odcid s)); [discriminate|].
@@ -249,7 +264,7 @@ Proof.
   assert (Hmit : 0 <= tp_mit q <= maxInt64).
   { destruct I7 as [->|(R & _)]; [unfold maxInt64; lia|]. unfold TP_MinRemoteIdleTimeout in R. lia. }
   assert (Hmad : tp_mad q / TP_Millisecond * TP_Millisecond = tp_mad q) by (unfold TP_Millisecond in *; lia).
-  split.
+  split; [|split].
   - (* tp_wf *)
     destruct (tp_mups q =? 0) eqn:Eu; unfold tp_wf;
       cbn [tp_imsd_bl tp_imsd_br tp_imsd_uni tp_imd tp_mad tp_ade tp_dam tp_mups tp_mus tp_mbs tp_mit tp_pa tp_odcid
@@ -257,12 +272,25 @@ Proof.
       splits; try assumption; try lia;
       try (right; unfold TP_MaxByteCount, maxVarInt8; lia);
       (destruct (tp_minad q) as [m|]; cbn [opt_wf] in *; [|exact I]; rewrite Hmad; unfold TP_Microsecond in *; lia).
+  - (* AdvertisedMaxIdleTimeout and MaxIdleTimeout *)
+    destruct (tp_mups q =? 0); cbn [tp_amit tp_mit set_mups];
+      (destruct I21 as [I21|(R21 & _ & Em21)]; [left; exact I21 | right; split; assumption]).
   - (* fixpoint of the normalisation *)
-    intros Hns.
+    intros Hns Ham.
+    assert (Eq0 : tp_mit (if tp_mups q =? 0 then set_mups TP_MaxByteCount q else q) = tp_mit q /\
+                  tp_amit (if tp_mups q =? 0 then set_mups TP_MaxByteCount q else q) = tp_amit q)
+      by (destruct (tp_mups q =? 0); split; reflexivity).
+    destruct Eq0 as (Eq1 & Eq2).
+    assert (Hns' : tp_mit q <> maxInt64) by (intro X; apply Hns; rewrite Eq1; exact X).
+    assert (Ham' : tp_amit q = 0 \/ TP_MinRemoteIdleTimeout <= tp_amit q) by (rewrite <- Eq2; exact Ham).
+    clear Hns Ham. rename Hns' into Hns. rename Ham' into Ham.
+    assert (Eam : tp_mit q / TP_Millisecond * TP_Millisecond = tp_amit q).
+    { destruct I21 as [(A0 & M0)|(R21 & W & Em21)]; [rewrite A0, M0; reflexivity|].
+      assert (tp_mit q = tp_amit q) as Eqm by (destruct Ham; unfold TP_MinRemoteIdleTimeout in *; lia).
+      rewrite Eqm in *. destruct W as [W|W]; [unfold TP_Millisecond in *; lia | contradiction]. }
     assert (Emit : norm_mit (tp_mit q) = tp_mit q).
     { unfold norm_mit. destruct I7 as [E0|(R & W)]; [rewrite E0; reflexivity|].
-      assert (tp_mit (if tp_mups q =? 0 then set_mups TP_MaxByteCount q else q) = tp_mit q) as Eq by (destruct (tp_mups q =? 0); reflexivity).
-      rewrite Eq in Hns. destruct W as [W|W]; [|contradiction].
+      destruct W as [W|W]; [|contradiction].
       unfold TP_MinRemoteIdleTimeout, TP_Millisecond in *.
       destruct (Z.eqb_spec (tp_mit q / 1000000) 0); lia. }
     assert (Eminad : option_map (fun m => m / TP_Microsecond * TP_Microsecond) (tp_minad q) = tp_minad q).
@@ -277,13 +305,13 @@ Proof.
       by (destruct pers; cbn [is_server]; [reflexivity | symmetry; apply (I20 eq_refl)]).
     assert (Esr : (if is_server pers then tp_srt q else None) = tp_srt q)
       by (destruct pers; cbn [is_server]; [reflexivity | symmetry; apply (I20 eq_refl)]).
-    unfold tp_norm. destruct q as [f1 f2 f3 f4 f5 f6 f7 f8 f9 f10 f11 f12 f13 f14 f15 f16 f17 f18 f19 f20 f21].
+    unfold tp_norm. destruct q as [f1 f2 f3 f4 f5 f6 f7 f8 f9 f10 f11 f12 f13 f14 f15 f16 f17 f18 f19 f20 f21 f22].
     cbn [tp_imsd_bl tp_imsd_br tp_imsd_uni tp_imd tp_mad tp_ade tp_dam tp_mups tp_mus tp_mbs tp_mit tp_pa tp_odcid
          tp_iscid tp_rscid tp_srt tp_acil tp_mdfs tp_rsa tp_minad tp_override set_mups] in *.
     destruct (f8 =? 0) eqn:Eu;
       cbn [tp_imsd_bl tp_imsd_br tp_imsd_uni tp_imd tp_mad tp_ade tp_dam tp_mups tp_mus tp_mbs tp_mit tp_pa tp_odcid
            tp_iscid tp_rscid tp_srt tp_acil tp_mdfs tp_rsa tp_minad tp_override set_mups];
-      rewrite Hmad, Emit, Eminad, Epa, Eod, Ers, Esr; subst f21.
+      rewrite Hmad, Emit, Eminad, Epa, Eod, Ers, Esr, Eam; subst f21.
     + change (TP_MaxByteCount =? 0) with false. reflexivity.
     + rewrite Eu. reflexivity.
 Qed.
@@ -294,9 +322,10 @@ Theorem tparams_reencode pers rnd b p :
   bytes b -> length rnd = 18%nat -> Forall is_byte rnd ->
   unmarshal pers false b = Ok p ->
   unmarshal pers false (marshal pers rnd p) = Ok (tp_norm pers p) /\
-  (tp_mit p <> maxInt64 -> unmarshal pers false (marshal pers rnd p) = Ok p).
+  (tp_mit p <> maxInt64 -> tp_amit p = 0 \/ TP_MinRemoteIdleTimeout <= tp_amit p ->
+   unmarshal pers false (marshal pers rnd p) = Ok p).
 Proof.
-  intros Hb Hl Hr H. destruct (unmarshal_wf pers b p Hb H) as (W & N).
+  intros Hb Hl Hr H. destruct (unmarshal_wf pers b p Hb H) as (W & _ & N).
   pose proof (tparams_roundtrip pers rnd p Hl Hr W) as R. split; [exact R|].
-  intros Hm. rewrite R, (N Hm). reflexivity.
+  intros Hm Ha. rewrite R, (N Hm Ha). reflexivity.
 Qed.
